@@ -3,21 +3,8 @@ import Afkak.Monitor.C14
 namespace Afkak.Props.Open.C03
 open Afkak.Consumer Afkak.Monitor
 
-/-- After a processor failure nothing more is delivered (so nothing more can be committed) until the
-    consumer is started again. -/
-def C03_failure_stops_progress : Prop :=
-  ∀ (cfg : Cfg) (script : List PEntry) (evs : List Ev),
-    (∀ e ∈ script, ∀ t, e.res ≠ .err .cancelled t) → C03.failureStopsOk (trace cfg script evs) = true
-
 /-- A `commit()` that reports success at once had nothing to commit. -/
 def C03_commit_reports : Prop :=
   ∀ (cfg : Cfg) (script : List PEntry) (evs : List Ev), C03.commitReportsOk (trace cfg script evs) = true
-
-/-- Crash safety: at every point of every run, the offset of every commit request issued so far is
-    covered by successfully processed blocks - a restart from the stored offset skips nothing unprocessed. -/
-def C03_crash_safe : Prop :=
-  ∀ (cfg : Cfg) (script : List PEntry) (evs : List Ev) (n : Nat),
-    C03.commitLeProcessedOk (trace cfg script (evs.take n)) = true ∧
-    C03.failureStopsOk (trace cfg script (evs.take n)) = true
 
 end Afkak.Props.Open.C03
